@@ -15,7 +15,7 @@ static bool include_known(const char *id) { const char *e = getenv("VERIF_INCLUD
 
 void h_run(Case &c) {
   Draw &d = c.head;
-  SpecOpts so; so.misc_keep = d.chance(2, 3); so.syn.max_pus = 48; so.xml_den = 6;
+  SpecOpts so; so.misc_keep = d.chance(2, 3); so.syn.max_pus = 48; so.xml_den = 6; so.gx_num = 1; so.gx_den = 6;
   TopoSpec sp = gen_topospec(d, so);
   c.desc(sp.text());
   hwloc_topology_t t; hwloc_topology_init(&t);
